@@ -10,10 +10,12 @@ package main
 
 import (
 	"fmt"
+	"os"
 	"path/filepath"
 	"reflect"
 	"strings"
 	"sync"
+	"time"
 
 	"verifharness/internal/hx"
 )
@@ -73,6 +75,16 @@ func c10Cases(e *Env) []txCase {
 	}
 	if e.Thorough() {
 		out = append(out, mk("none", "file", "file"), mk("file", "none", "none"), mk("none", "file", "", "file"))
+	}
+	// the other execution orders: on a linear history they plan, crash and resume exactly like the default
+	for _, ord := range []string{"linear-skip", "non-linear"} {
+		modes := []string{"none"}
+		if e.Thorough() {
+			modes = []string{"none", "file", "all"}
+		}
+		for _, mode := range modes {
+			out = append(out, txCase{Mode: mode, Order: ord, Files: []txFile{{Ok: []bool{true, true}}, {Ok: []bool{true, true, true}}}})
+		}
 	}
 	// statement texts that differ from case to case (the resume compares per-statement checksums): one file of
 	// four statements in none mode, killed after each statement only
@@ -220,8 +232,59 @@ func runC10(e *Env) error {
 			}
 		})
 	}
+	c10StaleLock(e, viol)
 	e.Res.Note("atlas processes run: %d", cliRuns.Load())
 	return nil
+}
+
+// c10StaleLock: a killed run leaves its advisory lock file behind (SQLite: a file in TMPDIR holding the expiry
+// time). Once the lock has expired, the re-run IN THE SAME TMPDIR takes it over and completes the migration.
+func c10StaleLock(e *Env, viol func(kind, sig, what, check string, rep any)) {
+	for mi, mode := range []string{"none", "file"} {
+		c := txCase{Mode: mode, Files: []txFile{{Ok: []bool{true, true}}, {Ok: []bool{true, true, true}}}}
+		dir, err := c.setup(e.Work, fmt.Sprintf("c10-lock-%d", mi))
+		if err != nil {
+			return
+		}
+		tmp := filepath.Join(dir, "sharedtmp")
+		os.MkdirAll(tmp, 0o755)
+		tr := filepath.Join(dir, "trace.txt")
+		out := runAtlas(e, dir, map[string]string{"VERIF_TRACE": tr}, c.args(c.fresh(dir, "trace.sqlite"))...)
+		if out.Code != 0 || len(out.Trace) < 4 {
+			continue
+		}
+		k := 0
+		for i, l := range out.Trace {
+			if strings.Contains(l, "INSERT INTO journal VALUES (1, 1)") {
+				k = i + 1
+			}
+		}
+		if k == 0 {
+			continue
+		}
+		dbn := c.fresh(dir, "lock.sqlite")
+		args := append(c.args(dbn), "--lock-timeout", "300ms")
+		replay := map[string]any{"case": c, "crash_at": fmt.Sprintf("%d:after", k), "shared_tmpdir": true, "lock_timeout": "300ms"}
+		e.Res.Count(fmt.Sprintf("stale-lock/%s", mode), true, "mode:"+mode, "stale-lock")
+		o := runAtlas(e, dir, map[string]string{"VERIF_CRASH_AT": fmt.Sprintf("%d:after", k), "VERIF_TMPDIR": tmp}, args...)
+		if !o.Killed {
+			continue
+		}
+		locks, _ := filepath.Glob(filepath.Join(tmp, "*.lock"))
+		time.Sleep(900 * time.Millisecond)
+		o2 := runAtlas(e, dir, map[string]string{"VERIF_TMPDIR": tmp}, args...)
+		if o2.Code != 0 {
+			viol("failing-input", "rerun-fails", fmt.Sprintf("%s: killed after operation %d with --lock-timeout 300ms; 900ms later the same command in the same TMPDIR (lock files left behind: %d) fails: %s", hxJSON(c), k, len(locks), trunc(o2.Stderr+o2.Stdout, 300)), "Props.C10 rerun_completes (expired lock of the killed run)", replay)
+			continue
+		}
+		fin, err := c.toModel(dumpDB(filepath.Join(dir, dbn)))
+		if err != nil {
+			continue
+		}
+		if what := c10FinalMonitor(&c, fin); what != "" {
+			viol("failing-input", "rerun-"+what, fmt.Sprintf("%s: killed after operation %d, re-run in the same TMPDIR after the lock expired: %s; database %s", hxJSON(c), k, what, fin), "Props.C10 final monitors", replay)
+		}
+	}
 }
 
 // c10CrashMonitor judges the state left by a crash (independent of the model).
